@@ -110,6 +110,8 @@ impl StateEntry {
             .duration_since(UNIX_EPOCH)
             .unwrap()
             .as_millis() as u64;
+        #[cfg(rre_verif)]
+        let now = crate::verif_hooks::now_ms();
 
         Self {
             value,
@@ -125,6 +127,8 @@ impl StateEntry {
                 .duration_since(UNIX_EPOCH)
                 .unwrap()
                 .as_millis() as u64;
+            #[cfg(rre_verif)]
+            let now = crate::verif_hooks::now_ms();
 
             let ttl_ms = ttl.as_millis() as u64;
             now > self.created_at + ttl_ms
@@ -485,6 +489,8 @@ impl StateStore {
             .duration_since(UNIX_EPOCH)
             .unwrap()
             .as_millis();
+        #[cfg(rre_verif)]
+        let now_ms = crate::verif_hooks::now_ms() as u128;
         let mut checkpoint_id = format!("checkpoint_{}", now_ms);
 
         // Checkpoint ids must be distinct: two checkpoints taken within the same
@@ -537,6 +543,11 @@ impl StateStore {
                     ))
                 })?;
 
+                #[cfg(rre_verif)]
+                if crate::verif_hooks::crash_at(1).is_some() {
+                    return Err(RuleEngineError::ExecutionError("verif: crash after create_dir_all".into()));
+                }
+
                 let data_path = checkpoint_path.join("state.json");
                 let json = serde_json::to_string_pretty(&snapshot).map_err(|e| {
                     RuleEngineError::ExecutionError(format!("Failed to serialize state: {}", e))
@@ -549,9 +560,25 @@ impl StateStore {
                     ))
                 })?;
 
+                #[cfg(rre_verif)]
+                if crate::verif_hooks::crash_at(2).is_some() {
+                    return Err(RuleEngineError::ExecutionError("verif: crash after File::create".into()));
+                }
+                #[cfg(rre_verif)]
+                if let Some(n) = crate::verif_hooks::crash_at(3) {
+                    let n = (n as usize).min(json.len());
+                    let _ = file.write_all(&json.as_bytes()[..n]);
+                    return Err(RuleEngineError::ExecutionError("verif: crash inside write_all".into()));
+                }
+
                 file.write_all(json.as_bytes()).map_err(|e| {
                     RuleEngineError::ExecutionError(format!("Failed to write checkpoint: {}", e))
                 })?;
+
+                #[cfg(rre_verif)]
+                if crate::verif_hooks::crash_at(4).is_some() {
+                    return Err(RuleEngineError::ExecutionError("verif: crash after write_all".into()));
+                }
 
                 let metadata = CheckpointMetadata {
                     id: checkpoint_id.clone(),
@@ -566,6 +593,11 @@ impl StateStore {
 
                 let mut checkpoints = self.checkpoints.write().unwrap();
                 checkpoints.push(metadata);
+
+                #[cfg(rre_verif)]
+                if crate::verif_hooks::crash_at(5).is_some() {
+                    return Err(RuleEngineError::ExecutionError("verif: crash after metadata push".into()));
+                }
 
                 // Clean old checkpoints
                 if checkpoints.len() > self.config.max_checkpoints {
